@@ -3,13 +3,18 @@
 package main
 
 import (
+	"bytes"
 	"fmt"
 	"strings"
 	"time"
 
+	"github.com/hashicorp/go-hclog"
 	"github.com/hashicorp/raft"
 
 	"github.com/hashicorp/consul/agent/consul"
+	"github.com/hashicorp/consul/agent/consul/fsm"
+	"github.com/hashicorp/consul/agent/consul/state"
+	raftstorage "github.com/hashicorp/consul/internal/storage/raft"
 	"github.com/hashicorp/consul/internal/verifharness/hx"
 	"github.com/hashicorp/consul/internal/verifharness/storex"
 )
@@ -62,6 +67,102 @@ func (g *gen) xnext(profile string) entry {
 	return g.kvs()
 }
 
+// newWideWorld: an FSM with a real resource storage backend, so that Snapshot / Restore work
+func newWideWorld() *storex.World {
+	backend, err := raftstorage.NewBackend(nil, hclog.NewNullLogger())
+	if err != nil {
+		panic(err)
+	}
+	return &storex.World{F: fsm.NewFromDeps(fsm.Deps{
+		Logger:         hclog.NewNullLogger(),
+		NewStateStore:  func() *state.Store { return state.NewStateStore(nil) },
+		StorageBackend: backend,
+	})}
+}
+
+type snapSink struct {
+	bytes.Buffer
+	cancelled bool
+}
+
+func (s *snapSink) ID() string    { return "verif-c06" }
+func (s *snapSink) Cancel() error { s.cancelled = true; return nil }
+func (s *snapSink) Close() error  { return nil }
+
+type snapReader struct{ *bytes.Reader }
+
+func (snapReader) Close() error { return nil }
+
+// snapshotRestore takes a snapshot of the FSM and restores it into the same FSM: the state store is
+// replaced (the old one is abandoned), exactly what a follower does when it installs a snapshot.
+func snapshotRestore(w *storex.World) (err error) {
+	defer func() {
+		if p := recover(); p != nil {
+			err = fmt.Errorf("panic: %v", p)
+		}
+	}()
+	snap, err := w.F.Snapshot()
+	if err != nil {
+		return err
+	}
+	defer snap.Release()
+	sk := &snapSink{}
+	if err := snap.Persist(sk); err != nil {
+		return err
+	}
+	return w.F.Restore(snapReader{bytes.NewReader(sk.Bytes())})
+}
+
+// restoreStep: snapshot + restore in the middle of a history. The property allows the index of a query to go
+// down across a restore (and only there, and across reaping); what it still demands is that a blocked query is
+// released (the abandon channel of the old store) and that everything holds again afterwards.
+func restoreStep(run *hx.Run, w *storex.World, srv *consul.VerifC06Server, sw *sweep, r *hx.RNG, replay func() []string) {
+	var bs []*blocked
+	for j, q := range sw.qs {
+		if r.Chance(2) && !sw.last[j].bad {
+			bs = append(bs, blockFor(srv, q, sw.last[j], 3*time.Second))
+		}
+	}
+	old := sw.last
+	if err := snapshotRestore(w); err != nil {
+		run.Tag("restore:failed")
+		run.Violate("harness:restore-failed", err.Error(), replay())
+		return
+	}
+	run.Tag("wide-op:snapshot-restore")
+	for _, b := range bs {
+		select {
+		case <-b.done:
+			if b.elapsed > 2*time.Second {
+				run.Violate("restore:blocked-query-not-released-by-abandon:"+b.q.Kind,
+					fmt.Sprintf("%s blocked on index %d was released only by its timeout (%v) after a snapshot restore", b.q.name(), b.min, b.elapsed), replay())
+			} else {
+				run.Tag("e2e:released-by-restore")
+			}
+		case <-time.After(10 * time.Second):
+			run.Violate("harness:blocking-query-never-returned:"+b.q.Kind, b.q.name()+" did not return within 10s of a restore", replay())
+		}
+	}
+	// new baseline on the restored store; differences in results are C02's business, a lower index is allowed here
+	fresh := newSweep(w.Store(), sw.qs)
+	for j := range sw.qs {
+		o, n := old[j], fresh.last[j]
+		if o.bad || n.bad {
+			continue
+		}
+		if n.res != o.res {
+			run.Tag("restore:result-differs(C02):" + sw.qs[j].Kind)
+		}
+		if reported(n.idx) < reported(o.idx) {
+			run.Tag("restore:index-went-down(allowed):" + sw.qs[j].Kind)
+		}
+		if n.idx == 0 && o.idx != 0 {
+			run.Tag("restore:index-0-after-restore:" + sw.qs[j].Kind)
+		}
+	}
+	sw.last = fresh.last
+}
+
 var wideProfiles = []string{"mixed", "catalog", "kv", "mesh", "peering", "ca"}
 
 func wideHistories(run *hx.Run, n, maxOps int) {
@@ -70,8 +171,8 @@ func wideHistories(run *hx.Run, n, maxOps int) {
 		r := run.RNG.Fork(uint64(5000000 + i))
 		profile := wideProfiles[i%len(wideProfiles)]
 		run.Tag("wide-profile:" + profile)
-		w := storex.NewWorld()
-		srv := consul.NewVerifC06Server(w.F, e2eMaxTime)
+		w := newWideWorld()
+		srv := consul.NewVerifC06Server(w.F, 5*time.Second)
 		qs := wideQueries(u)
 		if i == 0 {
 			run.Extra["wide_queries"] = len(qs)
@@ -87,6 +188,12 @@ func wideHistories(run *hx.Run, n, maxOps int) {
 		for k := 1 + r.Intn(maxOps); k > 0; k-- {
 			idx += 1 + uint64(r.Intn(100)/85*r.Intn(4))
 			g.idx = idx
+			if len(descs) > 2 && r.Chance(5) {
+				descs = append(descs, fmt.Sprintf("@%d snapshot + restore", idx))
+				restoreStep(run, w, srv, sw, r, replay)
+				nontrv = true
+				continue
+			}
 			var e entry
 			if len(descs) == 0 && r.Chance(80) {
 				// the intention format is decided once, by the leader's one-way migration, before anything else
